@@ -211,7 +211,10 @@ func (d *disconnectHandler) handleGracePeriodExpired(generation uint64) {
 	}
 
 	if d.election.connectionMonitor != nil {
-		if d.election.connectionMonitor.Status() != ConnectionStatusDisconnected {
+		// Only a reconnect keeps the leader: a connection the client has given
+		// up (closed) is as lost as a disconnected one.
+		status := d.election.connectionMonitor.Status()
+		if status == ConnectionStatusConnected || status == ConnectionStatusReconnected {
 			// Reconnected, don't demote
 			log := d.election.getLogger()
 			log.Info("connection_reconnected_before_grace_period",
@@ -345,7 +348,9 @@ func (e *kvElection) verifyLeadershipAfterReconnect() {
 	// Resume heartbeat loop if it was stopped
 	// Note: Heartbeat loop should resume automatically, but we verify
 	// Update status to Connected after successful verification
-	if e.connectionMonitor != nil {
+	// A disconnect that arrived while this verification was reading must not
+	// be overwritten: its grace period is running.
+	if e.connectionMonitor != nil && e.connectionMonitor.Status() == ConnectionStatusReconnected {
 		e.connectionMonitor.SetStatus(ConnectionStatusConnected)
 		// Update connection status metric
 		if e.cfg.Metrics != nil {
